@@ -249,3 +249,130 @@ def discarded_value_rule(ctx, rid: str, floor: int = 40):
             ctx.ob(rid, f'value-method:{mn}@{m.name}:{stmt_key(st) if callable(stmt_key) else ast.unparse(st)[:60]}', False,
                    f'`{ast.unparse(st)[:70]}` discards the result of {mn}(), which never changes its receiver ({names[mn][0][0].name}.{mn} returns a new object): '
                    'the statement has no effect', m.rel, st.lineno, construct=f'value-method:{mn}')
+
+
+# (module rel suffix, function, target name) -> reason: stores into another object's private field that are by design not on a fresh object
+FOREIGN_STORE_EXEMPT = {
+    ('ops/clifford_gate.py', '_act_on_', 'sim_state'): 'the simulation state handed to _act_on_ is the mutable object the protocol is asked to update',
+    ('sim/simulation_product_state.py', 'copy', 'copy'): 'loop variable over the dictionary of copies made two lines above (each value is sim_state.copy())',
+    ('value/abc_alt.py', '__new__', 'impl_of_abstract'): 'a function object created by wrap_scope() in the same call',
+}
+
+
+def fresh_method_names(repo):
+    """(method_fresh, fresh_expr): method_fresh(name) - every definition of that method name always hands back a newly built object (never self, never a
+    stored attribute); calls on self are resolved through the defining class's own MRO."""
+    defs = {}
+    for ci in repo.classes.values():
+        if '.testing.' in ci.qual:
+            continue
+        for mn, fn in ci.methods.items():
+            defs.setdefault(mn, []).append((ci, fn))
+    memo = {}
+
+    def fresh_expr(v, seen, ci=None, allow_self=False):
+        if isinstance(v, ast.IfExp):
+            return fresh_expr(v.body, seen, ci, allow_self) and fresh_expr(v.orelse, seen, ci, allow_self)
+        if allow_self and isinstance(v, ast.Name) and v.id == 'self':
+            return True
+        if isinstance(v, ast.BinOp):
+            return True                    # arithmetic on value objects builds a new one
+        if isinstance(v, ast.Call):
+            cn = call_name(v)
+            if cn in ('copy', 'deepcopy', '__new__', 'replace'):
+                return True
+            if cn and (cn.lstrip('_')[:1].isupper() or cn in ('cls',)):
+                return True
+            if isinstance(v.func, ast.Call) and call_name(v.func) == 'type':
+                return True
+            if isinstance(v.func, ast.Attribute) and isinstance(v.func.value, ast.Name) and v.func.value.id == 'self' and ci is not None:
+                r = repo.find_method(ci, cn)
+                if r is not None:
+                    return def_fresh(r[0], r[1], seen)
+                return False
+        return False
+
+    def def_fresh(ci, fn, seen):
+        k = (ci.qual, fn.name)
+        if k in memo:
+            return memo[k]
+        if k in seen:
+            return False
+        if any(isinstance(n, (ast.Yield, ast.YieldFrom)) for n in ast.walk(fn)):
+            memo[k] = False
+            return False
+        rets = [r for r in ast.walk(fn) if isinstance(r, ast.Return)]
+        ok = bool(rets)
+        local = {}
+        for n in ast.walk(fn):
+            if isinstance(n, ast.Assign) and len(n.targets) == 1 and isinstance(n.targets[0], ast.Name):
+                local.setdefault(n.targets[0].id, []).append(n.value)
+        for r in rets:
+            v = r.value
+            if isinstance(v, ast.Name) and v.id in local:
+                if not all(fresh_expr(x, seen | {k}, ci) for x in local[v.id]):
+                    ok = False
+            elif isinstance(v, ast.Name) and v.id == 'NotImplemented':
+                pass
+            elif v is None or not fresh_expr(v, seen | {k}, ci):
+                ok = False
+        memo[k] = ok
+        return ok
+
+    def method_fresh(mn, seen=frozenset()):
+        if mn not in defs:
+            return False
+        return all(def_fresh(ci, fn, seen) for ci, fn in defs[mn])
+    return method_fresh, fresh_expr
+
+
+def foreign_store_rule(ctx, rid: str, floor: int = 30):
+    """`x._f = v` with x not self: x must be an object this function has just built (constructor, copy, a method that always builds a new object)."""
+    repo = ctx.repo
+    from ..flow import reaching_defs
+    ctx.rule(rid, 'private state of another object is written only on an object the same function has just created (constructor / __new__ / copy / a method every '
+             'definition of which returns a newly built object): writing through a reference that may be `self` or a shared instance changes a value other code holds',
+             floor=floor, style='WMW')
+    method_fresh, fresh_expr = fresh_method_names(repo)
+    for m in sorted(repo.modules.values(), key=lambda x: x.rel):
+        if '/testing/' in m.rel or '/contrib/' in m.rel or '/cloud/' in m.rel:
+            continue
+        for fn in [f for f in ast.walk(m.tree) if isinstance(f, ast.FunctionDef)]:
+            selfname = fn.args.args[0].arg if fn.args.args else None
+            params = {a.arg for a in fn.args.args + fn.args.kwonlyargs}
+            sites = []
+            for st in ast.walk(fn):
+                tg = st.targets if isinstance(st, ast.Assign) else ([st.target] if isinstance(st, (ast.AugAssign, ast.AnnAssign)) else [])
+                for t in tg:
+                    if isinstance(t, ast.Attribute) and isinstance(t.value, ast.Name) and t.value.id not in (selfname, 'self', 'cls') \
+                            and t.attr.startswith('_') and not t.attr.startswith('__'):
+                        sites.append((st, t))
+            if not sites:
+                continue
+            rd = reaching_defs(fn, {t.value.id for _, t in sites})
+            for st, t in sites:
+                nm = t.value.id
+                key = f'{m.name}.{fn.name}:{nm}.{t.attr}'
+                ex = next((r for (suffix, f, n), r in FOREIGN_STORE_EXEMPT.items() if m.rel.endswith(suffix) and f == fn.name and n == nm), None)
+                if ex is not None:
+                    ctx.ob(rid, key, True, 'listed: ' + ex, m.rel, st.lineno)
+                    continue
+                defs = rd.get(id(t.value), set())
+                bad = []
+                for d in defs:
+                    if isinstance(d, str):
+                        bad.append(d)                      # 'param' / 'loop' / 'undefined'
+                    elif isinstance(d, ast.Call) and isinstance(d.func, ast.Attribute) and not (isinstance(d.func.value, ast.Name) and d.func.value.id == 'self') \
+                            and call_name(d) not in ('copy', 'deepcopy', '__new__', 'replace') and not (call_name(d) or ' ')[0].isupper():
+                        # a method of another object: fresh iff every definition of that name is
+                        if not method_fresh(call_name(d)):
+                            bad.append(ast.unparse(d)[:50])
+                    elif isinstance(d, ast.Call) and isinstance(d.func, ast.Attribute) and isinstance(d.func.value, ast.Name) and d.func.value.id == 'self':
+                        if not method_fresh(call_name(d)):           # any override may be the one that runs
+                            bad.append(ast.unparse(d)[:50])
+                    elif not fresh_expr(d, frozenset(), None, allow_self=True):
+                        bad.append(ast.unparse(d)[:50])
+                ok = bool(defs) and not bad
+                ctx.ob(rid, key, ok, '' if ok else f'{fn.name} assigns {nm}.{t.attr}, but `{nm}` may be bound to {bad or "nothing this function created"}: '
+                       'that object is not known to be new (a definition of the method returns self or a stored object), so the store changes a value shared with the caller',
+                       m.rel, st.lineno)
